@@ -1,4 +1,5 @@
 import P2.Driver.Json
+import P2.Driver.Xml
 import P2.Driver.MapSt
 import P2.Driver.Cmp
 import P2.Driver.Binning
@@ -9,6 +10,8 @@ open P2.Driver
 def handle (line : String) : String :=
   match splitTab line with
   | "JSON" :: args => handleJson args
+  | "XML" :: args => handleXml args
+  | "HTML" :: args => handleHtml args
   | "MAPHIST" :: args => handleMapHist args
   | "CMP" :: args => handleCmp args
   | "BIN" :: args => handleBin args
